@@ -133,7 +133,18 @@ func (g *Gen) Object(s *State, mod, tn, path string) *SVal {
 		case "fixstr":
 			ov.F[i] = g.fixText(s, nm, f)
 		case "pstr":
-			if g.PLen >= 0 {
+			if g.PLen > 64 {
+				// long text of concrete length (size thresholds of bulk paths), capped by what the prefix can count;
+				// array-backed content
+				n := int64(g.PLen)
+				if w := typeWidth(f.Prefix); w < 32 && n > int64(1)<<uint(w)-1 {
+					n = int64(1)<<uint(w) - 1
+				}
+				arr := ArrVar(e.freshName(nm + "_long"))
+				b := &Bytes{Len: CI(n)}
+				b.At = func(i *Term) *Term { return Select(arr, i) }
+				ov.F[i] = &SVal{K: 's', S: b, SMax: int(n)}
+			} else if g.PLen >= 0 {
 				vec := make([]*Term, g.PLen)
 				for j := range vec {
 					vec[j] = e.freshVar(nm+"_b", 8)
